@@ -119,6 +119,35 @@ def add(total, s):
     return vlib.merge_summaries([total, s]) if total else s
 
 
+# "when signature verification is enabled, a package that has not passed verification is never installed": this check's own
+# driver takes the Verified condition as an input of the revision reconciler. Where the verdict comes from - the real
+# signature.Reconciler, the real ImageConfigStore's selection of the verification config, the gate as the revision
+# reconciler applies it to that verdict - is module Signature (check X09); its formulas below are part of C15's verdict.
+# (Added after the seeded change C15-m6 - a matching verification config without cosign block is skipped - was missed.)
+RIDER_FORMULAS = ["Sig.Verdict.Shape", "Sig.Skipped.OnlyIfNoMatch", "Sig.NoMatch.Skipped", "Sig.Select.Longest", "Sig.NoCosign.Incomplete",
+                  "Sig.BadRef.Incomplete", "Sig.Succeeded.NeedsValidation", "Sig.Failed.IffInvalid", "Sig.Validated.Succeeds",
+                  "Sig.Validate.Ref", "Verdict.ChangedOnlyBy", "Rev.KeepsVerdict", "Select.Longest",
+                  "Gate.Closed.NoSeams", "Gate.Closed.NoWrites", "Gate.Closed.Calls", "Gate.Establish.Control"]
+
+
+def rider_signature(ctx):
+    from checks import x09
+    sub = ctx.sub("signature")
+    plan = [("quick", 350), ("quick_gate", 300), ("quick_ic", 300)] if ctx.quick else [("thorough", 8000), ("thorough_gate", 7000), ("thorough_ic", 6000), ("quick_odd", 3000)]
+    scs, vecs, st, tr, em, consts = x09.emit_all(sub, plan, ("vec_quick", 1200 if ctx.quick else 6000))
+    for sc in scs:
+        sc["id"] = sc["id"].replace(x09.PID + "-", PID + "-sig-", 1)
+        sc["rider"] = "signature"
+    for v in vecs:
+        v["id"] = v["id"].replace(x09.PID + "-", PID + "-sig-", 1)
+        v["rider"] = "signature"
+    s, n, _ = x09.drive_and_judge(sub, scs, vecs, shards=4 if ctx.quick else 10, counts=False)
+    for v in sub.violations:
+        if v["formula"] in RIDER_FORMULAS:
+            ctx.violations.append(v)
+    return dict(states=st, transitions=tr, runs=s["runs"] + s["vectors"], events=n, formulas=RIDER_FORMULAS)
+
+
 def run(ctx):
     quick = ctx.quick
     binp = build_driver(ctx)
@@ -156,7 +185,9 @@ def run(ctx):
         sweep_scs.append(dict(sc, vlayout=layouts[i % len(layouts)], vbuild="built" if (i // len(layouts)) % 2 == 0 else "raw"))
     s, n = drive_and_judge(ctx, binp, sweep_scs, name="sweep", sweep=1, sweepstep=9 if quick else 1, sweeponly=True, shards=4 if quick else 8)
     total, nlines = add(total, s), nlines + n
+    sig = rider_signature(ctx)
     ctx.cov.update(dict(
+        signature_rider=sig,
         states=states, transitions=trans, traces_validated_against_impl=total["runs"],
         samples=total.get("samples", [])[:2], model_runs=consts, model_witness=witness, scenarios_emitted=emitted,
         scenarios_distinct=distinct, scenarios_replayed=total["scenarios"], reconciles=total["reconciles"],
@@ -200,6 +231,11 @@ def run(ctx):
 def replay(ctx, path):
     with open(path) as f:
         sc = json.load(f)
+    if sc.get("rider") == "signature":
+        from checks import x09
+        x09.replay(ctx, path)
+        ctx.violations = [v for v in ctx.violations if v["formula"] in RIDER_FORMULAS]
+        return
     binp = build_driver(ctx)
     if "layout" not in sc:
         sc = dict(sc)
